@@ -72,6 +72,8 @@ var c16Numbers = []struct {
 	// beyond 2^53 but held exactly by a double: bitwise results are ordinary numbers here too
 	{"big 2^60", []string{"1152921504606846976", "(2 ** 60)", "(1 << 60)", "(1152921504606846976 | 0)", "((1 << 30) * (1 << 30))", bn.BAbs + "(-1152921504606846976)", "((1 << 61) >> 1)", "(1152921504606846976 & 1152921504606846976)", "(1152921504606846976 ^ 0)", "(~(~1152921504606846976))", bn.BMax + "(1, 1 << 60)", "(2 ** 30 << 30)"}},
 	{"big -2^63", []string{"(-9223372036854775808)", "(0 - 2 ** 63)", "((-1) << 63)", "(1 << 63)", "((-9223372036854775808) | 0)", bn.BMin + "(0, 1 << 63)", "((-4611686018427387904) * 2)"}},
+	{"big 2^100", []string{"1267650600228229401496703205376", "(2 ** 100)", "(1125899906842624 * 1125899906842624)", bn.BPow + "(2, 100)", "(1267650600228229401496703205376 + 0)", "(2535301200456458802993406410752 / 2)", bn.BAbs + "(-1267650600228229401496703205376)", "1267650600228229401496703205376.0"}},
+	{"big 0.9999999999999999", []string{"0.9999999999999999", "(1 - 0.0000000000000001110223024625156540423631668090820312500)", "(0.5 + 0.4999999999999999)", "0.99999999999999990"}},
 	{"big 3*2^60", []string{"3458764513820540928", "(3 * 2 ** 60)", "(3 << 60)", "(3458764513820540928 | 0)", "((1 << 60) | (1 << 61))", "((1 << 60) + (1 << 61))"}},
 	{"12", []string{"12", "(3 * 4)", "(12 | 0)", "(8 | 4)", bn.BRound + "(11.5)", "১২", "(28 % 16)", "(12 % 1048576)"}},
 }
@@ -261,7 +263,7 @@ func TestC16(t *testing.T) {
 					c16Producer{name: "variable-of-bitwise", setup: bn.KwVar + " held = " + n.exprs[2] + ";", expr: "held"})
 				c.c16Group(s, "numbers", n.name, ps, contexts, &k)
 			}
-			c.Ev.MarkExhaustive(fmt.Sprintf("%d contexts x 9 numbers (three beyond 2^53 that a double holds exactly) x every producer (literal, arithmetic, bitwise, লেন, রাউন্ড, পরমমান, min/max, containers, parameter, function result) against the literal producer", len(contexts)))
+			c.Ev.MarkExhaustive(fmt.Sprintf("%d contexts x 11 numbers (three beyond 2^53 that a double holds exactly, 2^100 written with 31 digits, a 16-digit fraction) x every producer (literal, arithmetic, bitwise, লেন, রাউন্ড, পরমমান, min/max, containers, parameter, function result) against the literal producer", len(contexts)))
 		})
 	})
 }
